@@ -7,6 +7,7 @@
  *
  * no argument   stdin: "cfg tn" per line -> "rc t0 t1 ..." : return code of l1sched_configure_ts() followed by every lchan type
  *               that has a channel state afterwards (asked through l1sched_find_lchan_by_type for every type 0 .. _L1SCHED_CHAN_MAX-1).
+ * resolve       the real l1sched_chan_nr2pchan_config(chan_nr) for chan_nr = 0..255 ("chan_nr config" per line)
  * rx|tx|probe   stdin: one case per line
  *                   cfg tn actmask npoke (type np_hi np_lo nlost last_proc)*npoke n fn*n
  *               the timeslot is (re)configured with the real l1sched_configure_ts(cfg), every lchan type whose bit is set in actmask
@@ -193,6 +194,12 @@ int main(int argc, char **argv)
 	struct l1sched_state *sched = l1sched_alloc(NULL, &cfg, NULL);
 	long c, tn;
 	if (!sched) { printf("ALLOC-FAILED\n"); return 2; }
+	if (argc > 1 && !strcmp(argv[1], "resolve")) {
+		/* the real l1sched_chan_nr2pchan_config() for every uint8_t channel number: "chan_nr config" per line */
+		for (c = 0; c < 256; c++)
+			printf("%ld %d\n", c, (int)l1sched_chan_nr2pchan_config((uint8_t)c));
+		return 0;
+	}
 	if (argc > 1) {
 		int mode = !strcmp(argv[1], "rx") ? M_RX : !strcmp(argv[1], "tx") ? M_TX : !strcmp(argv[1], "probe") ? M_PROBE : -1;
 		char *line = NULL; size_t cap = 0;
